@@ -116,8 +116,11 @@ def run_case(ctx, case):
     try:
         whole = dict(_parse(records).raw_capabilities)
         singles = {}
+        alone = []
         for rec in records:
-            singles.update(_parse([rec]).raw_capabilities)
+            one = dict(_parse([rec]).raw_capabilities)
+            alone.append(one)
+            singles.update(one)
     except Exception as e:  # noqa: BLE001
         ctx.count(key, kind="parser-raised")
         ctx.violation("parser-raises", f"capability parser raised {type(e).__name__}: {e} on a well-formed list", case)
@@ -130,6 +133,18 @@ def run_case(ctx, case):
         differ = sorted(k for k in set(whole) & set(singles) if whole[k] != singles[k])
         ctx.violation(_mech(records), "capabilities of the whole list differ from the in-order merge of each record alone", case,
                       {"missing": missing, "extra": extra, "differ": differ})
+    else:
+        # records with different ids do not share result keys (a record can only be overridden by a later record of the SAME id):
+        # what a record yields alone must be found unchanged in the result of the whole list
+        ids = [c for c, _ in records]
+        if len(set(ids)) == len(ids):
+            ctx.bump("distinct-id-lists-checked-for-key-interference")
+            for (cid, _), one in zip(records, alone):
+                lost = sorted(k for k, v in one.items() if k not in whole or whole[k] != v)
+                if lost:
+                    ctx.violation(_mech(records) if _has_short_temps(records) else "records-interfere", f"what record 0x{cid:04X} yields alone ({lost}) is changed by another record "
+                                  f"with a different id in the same list", case, {"alone": {k: repr(one[k]) for k in lost}, "whole": {k: repr(whole.get(k)) for k in lost}})
+                    break
     # more flag must be read independently of the records
     try:
         for more in (False, True):
